@@ -68,6 +68,7 @@ type btxState struct {
 	committed bool
 	attempts  []*attempt
 	armed     []string
+	pendingFP []string
 	nonce     string
 }
 
@@ -384,6 +385,17 @@ func (r *Run) onRw(ev string) {
 	case "acquired":
 		r.nbtx++
 		r.btx = &btxState{id: r.nbtx, working: r.committed.Clone()}
+	case "commit.begin":
+		if r.btx != nil {
+			for _, fp := range r.btx.pendingFP {
+				if err := gofail.Enable(fp, `return("dsim injected commit failure")`); err != nil {
+					r.s.HarnessError("gofail enable " + fp + ": " + err.Error())
+					continue
+				}
+				r.btx.armed = append(r.btx.armed, fp)
+			}
+			r.btx.pendingFP = nil
+		}
 	case "committed":
 		if r.btx != nil {
 			r.btx.committed = true
@@ -879,13 +891,10 @@ func (r *Run) body(tr *txRun, ctx boltz.MutateContext) (err error) {
 			}
 		}
 		if f.Kind == "F7" {
+			// armed when this transaction's commit begins (the failpoints are global to the bbolt package and
+			// another database - a snapshot being marked - may commit while this Batch is still collecting members)
 			r.mu.Lock()
-			if err := gofail.Enable(f.FP, `return("dsim injected commit failure")`); err != nil {
-				r.mu.Unlock()
-				r.s.HarnessError("gofail enable " + f.FP + ": " + err.Error())
-				panic(abortSig{})
-			}
-			b.armed = append(b.armed, f.FP)
+			b.pendingFP = append(b.pendingFP, f.FP)
 			r.mu.Unlock()
 		}
 	}
@@ -1110,6 +1119,12 @@ func (r *Run) afterTx(tr *txRun, err error, panicked bool) {
 	}
 	r.logf("%s returned err=%v committed=%v why=%s attempts=%d", tr.id, err, committed, why, len(tr.attempts))
 	switch {
+	case committed && last.mustFail != "":
+		// something failed inside the transaction (rejected operation, veto, storage error, caller error, panic,
+		// pre-commit action) and it committed nevertheless
+		r.violate(Violation{Props: []string{"C07"}, Oracle: "tx", Sig: "committed-despite-failure:" + tr.plan.Mode + ":" + last.mustFail,
+			Detail: fmt.Sprintf("%s (%s): a %s failure occurred inside the transaction, yet it committed (returned %v)", tr.id, tr.plan.Mode, last.mustFail, err)})
+		panic(abortSig{})
 	case err == nil && !committed:
 		r.violate(Violation{Props: []string{"C07"}, Oracle: "tx", Sig: "failure-not-reported:" + tr.plan.Mode + ":" + why,
 			Detail: fmt.Sprintf("%s (%s) returned nil but its transaction did not commit (failure: %s)", tr.id, tr.plan.Mode, why)})
